@@ -676,7 +676,11 @@ def rule_guard_dominance(rep: Report, repo: Repo):
     else:
         c = checks[0].ast.value
         args = [norm(a) for a in c.args] + [f"{k.arg}={norm(k.value)}" for k in c.keywords]
-        rep.check(args[:2] == ["right_subspaces", "left_subspaces"], R,
+        un_ = [s_ for s_ in own_nodes(f) if isinstance(s_, ast.Assign) and isinstance(s_.targets[0], ast.Tuple) and isinstance(s_.value, ast.Call)
+               and call_name(s_.value) == "_normalize_subspace_eigenvectors" and len(s_.targets[0].elts) == 2]
+        if len(un_) != 1:
+            raise AnalysisError(R, "block_diagonalize: unpacking of _normalize_subspace_eigenvectors(...) not found")
+        rep.check(args[:2] == [norm(e_) for e_ in un_[0].targets[0].elts], R,
                   f"{MOD}::block_diagonalize _check_biorthonormality receives (right, left) subspaces", str(args), loc(c))
         users = [n for n in g.nodes if n.ast is not None and not isinstance(n.ast, ast.FunctionDef) and any(
             isinstance(x, ast.Call) and call_name(x) in ("solve_sylvester_direct", "solve_sylvester_KPM", "operator_to_BlockSeries")
@@ -826,7 +830,9 @@ def rule_symbolic_hermiticity(rep: Report, repo: Repo):
             guard_if = guard_if._parent
         te = _res5(tested[0], _ea5(guard_if, ev))
         idx = ev.args.vararg.arg if ev.args.vararg else "index"
-        COEFF = (f"operator_derivatives[{idx}].subs({{_v0: 0 for _v0 in symbols}})", f"operator_derivatives[{idx}].subs(dict.fromkeys(symbols, 0))")
+        from .e2b import derivative_series_name as _dsn
+        DER = _dsn(f, R)
+        COEFF = (f"{DER}[{idx}].subs({{_v0: 0 for _v0 in symbols}})", f"{DER}[{idx}].subs(dict.fromkeys(symbols, 0))")
         txt = norm(te)
         has_symbols = any(isinstance(x, ast.Name) and x.id == "symbols" for x in ast.walk(te)
                           if not (isinstance(getattr(x, "_parent", None), ast.comprehension)))
